@@ -9,6 +9,10 @@ from . import worlds as W
 
 
 def run(ctx, rep):
+    # the reported time is a function of the request alone: a cache or other hidden state on the computation path makes it depend on what was
+    # computed before (C20's R20.5) - the same place and date, asked with another school, angle or weather, would get the earlier answer
+    from . import shared, c20 as _c20h
+    shared.include(ctx, rep, _c20h.run, {'R20.5'}, why='no thread-local, static or lock-protected state on the computation path')
     rep.explanation = (
         'Decides: weather non-interference (Fajr, Dhuhr, Asr, Isha do not depend on weather; Shurooq/Maghrib do and depend on no method '
         'parameter; through the policy layer weather reaches other times only via a Shurooq/Maghrib cell), one horizon constant in '
